@@ -348,33 +348,43 @@ def axiom_audit(module, names=None):
 
 
 def lean_obligations(ctx, module, extra_modules=()):
-    """Build the property module, audit it; records one obligation per theorem.
-    Returns (ok, build_output)."""
-    ok, out = lake_build([module] + list(extra_modules))
-    ths = [n for n, _ in theorems_in(module)]
+    """Build the property module (and `extra_modules`, further modules holding theorems of the same
+    property), audit them; records one obligation per theorem.  Returns (ok, build_output)."""
+    mods_all = [module] + [m for m in extra_modules if os.path.exists(os.path.join(LEAN, m.replace(".", "/") + ".lean"))]
+    ok, out = lake_build(mods_all)
     ctx.coverage["lean_module"] = module
+    ctx.coverage["lean_modules_audited"] = mods_all
+    per_mod = [(m, [n for n, _ in theorems_in(m)]) for m in mods_all]
+    ths = [t for _, l in per_mod for t in l]
     if not ok:
-        bad = failing_theorems(module, out)
-        # errors in imported modules: attribute to the module name
-        other = re.findall(r"error: .*?(TriompheModel/[\w/]+\.lean):(\d+)", out)
+        bad = []
+        for m in mods_all:
+            bad += failing_theorems(m, out)
         for t in ths:
-            ctx.oblige("lean:" + t, t not in bad and not (other and not bad), "build error")
+            ctx.oblige("lean:" + t, bool(bad) and t not in bad, "build error")
         if not bad:
             ctx.oblige("lean:build:" + module, False, out[-1500:])
         ctx.coverage["lean_errors"] = out[-3000:]
+        ctx.coverage["lean_failing_declarations"] = bad
         return False, out
-    hits, mods = grep_forbidden([module])
+    hits, mods = grep_forbidden(mods_all)
     ctx.oblige("lean:no-sorry-no-axiom-grep", not hits, str(hits))
-    aok, res, raw = axiom_audit(module, ths)
+    aok = True
+    allres = {}
+    for m, names in per_mod:
+        a, res, raw = axiom_audit(m, names)
+        aok = aok and a
+        allres.update(res)
     for t in ths:
-        ctx.oblige("lean:" + t, t in res and set(res[t]) <= ALLOWED_AXIOMS, "axioms: %s" % res.get(t))
-    ctx.coverage["axioms_found"] = sorted({a for v in res.values() for a in v})
+        ctx.oblige("lean:" + t, t in allres and set(allres[t]) <= ALLOWED_AXIOMS, "axioms: %s" % allres.get(t))
+    ctx.coverage["axioms_found"] = sorted({a for v in allres.values() for a in v})
     ctx.coverage["theorems"] = ths
     ctx.coverage["lean_modules_in_cone"] = mods
     if ctx.thorough():
-        with Lock("lake"):
-            rc, o = sh(["lake", "env", "leanchecker", module], cwd=LEAN, timeout=1800)
-        ctx.oblige("leanchecker:" + module, rc == 0, o[-800:])
+        for m in mods_all:
+            with Lock("lake"):
+                rc, o = sh(["lake", "env", "leanchecker", m], cwd=LEAN, timeout=1800)
+            ctx.oblige("leanchecker:" + m, rc == 0, o[-800:])
     return ok and aok and not hits, out
 
 
